@@ -129,6 +129,8 @@ pub struct PollInfo<'a> {
     pub events_taken: bool,
     /// Second poll at the same instant (buggify).
     pub dup: bool,
+    /// Received bytes the PHY showed to the station for the first time in this poll.
+    pub new_rx_bytes: usize,
 }
 
 #[derive(Clone, Debug)]
@@ -1147,12 +1149,13 @@ impl World {
         }
         // collect what happened
         let post = Snap::of(self.stations[i].fdl.as_ref().unwrap());
-        let (rx, txs, contract) = {
+        let (rx, txs, contract, new_rx_bytes) = {
             let phy = self.stations[i].phy.as_mut().unwrap();
             (
                 std::mem::take(&mut phy.rx_events),
                 std::mem::take(&mut phy.tx_started),
                 std::mem::take(&mut phy.contract),
+                std::mem::take(&mut phy.new_rx_bytes),
             )
         };
         let calls: Vec<AppCall> = self.stations[i].log.borrow().clone();
@@ -1268,6 +1271,7 @@ impl World {
             scan_events: &scan_events,
             events_taken,
             dup,
+            new_rx_bytes,
         };
         // Order inside one poll: what was received and the callbacks it caused come first, the
         // transmission the poll ended with comes last.
